@@ -293,4 +293,11 @@ static void gen(Emitter &em, const Options &opt) {
     }
 }
 
-int main(int argc, char **argv) { return run_main(argc, argv, gen, exec_case); }
+// The machine is shared: a case can be descheduled (or a 2-4 GB allocation can take) longer than the runner's default
+// 4 s no-progress limit, which would be reported as a hang of the library.  Nothing in this family loops on its input,
+// so the limit is raised (a later --timeout on the command line still overrides it).
+int main(int argc, char **argv) {
+    std::vector<char *> av{argv[0], (char *)"--timeout", (char *)"30"};
+    for (int i = 1; i < argc; ++i) av.push_back(argv[i]);
+    return run_main((int)av.size(), av.data(), gen, exec_case);
+}
